@@ -80,7 +80,7 @@ def run(ctx):
                         ctx.ob("R13.3", key + "/write in %s" % e.site[2], False, sites=[e.site],
                                detail="TOKEN_INFO overwritten with a value not derived from the stored one: %s" % show(e.value)[:200])
                         continue
-                    d = cell_delta(e, field="total_supply")
+                    d = cell_delta(e, field="total_supply", path=p)
                     raises = d.nf is None or any(c > 0 for c in d.nf.atoms.values()) or d.nf.const > 0
                     if raises:
                         n_mint += 1
